@@ -5,6 +5,7 @@ CONSTANTS
   MaxValLast = 2
   MaxDoc = 2
   Limits = {99, 0, 1, 2, 3, 4}
+  ExtSets = {{}, {3}, {1, 2}}
   Sites = {"content", "attr", "attdef"}
   ScnSet = {"IG", "DG"}
   ApiSet = {"RAW", "SAX2", "DOM"}
